@@ -50,6 +50,8 @@ T = [
 ("C06","fix: OrefaFS Link, Rename and OpenFile(O_CREATE) looked names up under the read lock","OrefaFS Link, Rename, OpenFile(O_CREATE) acted on lookups made under the index read lock: two winners for one name, lost nodes, index and children maps diverging, stale link counters, directory cycles (RemoveAll out of memory), and lock-order deadlocks of Rename/Link against Mkdir, MkdirAll, Remove, OpenFile(O_CREATE), CreateTemp, MkdirTemp"),
 ("C07","fix: OrefaFS.Link locked the file before the directory","OrefaFS Link(/d/x,/d/y) || ReadDir on a handle of /d: Link locked the file then the directory, the listing the directory then the file (deadlock)"),
 ("C07","fix: OrefaFS.RemoveAll modified directories and files without their locks","OrefaFS RemoveAll || directory listing of the same tree: nil entry dereferenced in dirEntries, children maps and link counters written without the node locks (data races)"),
+("C10","fix: BasePathFS.Sub returned the sub file system of the base","BasePathFS.Sub(dir) handed out the raw MemFS view of the base: s.Symlink(\"/outside/file\", \"/l\") through it, then ReadFile/WriteFile(dir/l) through the BasePathFS read and overwrote a file outside the base path"),
+("C03","fix: MemFS.RemoveAll emptied directories on which the user had write permission only","MemFS.RemoveAll by a non-administrator removed the entries of a directory he can write but not search or read (os.RemoveAll: EACCES, content kept); found both as a wrong success and as content missing after a refused call"),
 ]
 log = subprocess.check_output(['git','-C','/repo','log','--format=%h %s','adfd2e3..HEAD']).decode().strip().split('\n')
 subj = {}
